@@ -103,7 +103,7 @@ def run_case(case):
         ctxk = case.get("ctx")
         kind = case["kind"]
         flat = len(b.out_shape) == 1
-        if kind in ("flow", "dist") and not flat:
+        if kind in ("flow", "dist") and (not flat or len(b.in_shape) != 1):
             kind = "transform"
         g = torch.Generator().manual_seed(case["seed"] + 1)
         n = case["rows"]
